@@ -271,7 +271,7 @@ func checkC04(w *World) {
 	} else {
 		w.undecided(P, "R04.3", "Number.String", 0, "method not found")
 	}
-	w.floor(P, "R04.3", 14)
+	w.floorSites(P, "R04.3", 14)
 
 	// R04.4 node string-value switch
 	docRule(P, "R04.4", "X+T K<->S", "node string-value: the type switch reached from GetCursorString has one arm per node kind using that kind's value accessor (NamespaceValue, AttributeValue, CharDataValue, CommentValue, ProcInstValue; element and root: recursion over Children() restricted to element and character-data children), and no arm is shadowed: Go interfaces are structural (every attribute also implements node.Element, node.Root matches everything), so a more general interface must come after the more specific ones. The shadowing rule is applied to every type switch over node kinds in exec, store, parser and the CLI.")
